@@ -134,6 +134,35 @@ fn candidates(cases: &[Case], inv_index: usize) -> Vec<Vec<Case>> {
             out.push(v);
         }
     }
+    // contents: the smallest member of the usual classes
+    for (k, bytes) in base.world.files.iter() {
+        if !(k.ends_with(".lua") || k.ends_with(".luau")) {
+            continue;
+        }
+        for small in [&b"local   x   =    1\n"[..], &b"local x = 1\n"[..], &b"x = = 2\n"[..]] {
+            if bytes.len() > small.len() {
+                if let Some(v) = apply(&|c| {
+                    c.world.files.insert(k.clone(), small.to_vec());
+                    true
+                }) {
+                    out.push(v);
+                }
+            }
+        }
+    }
+    // user edits between invocations
+    for i in 0..base.invs.len() {
+        if !base.invs[i].pre_edits.is_empty() {
+            out.extend(apply(&|c| {
+                if c.invs.len() > i && !c.invs[i].pre_edits.is_empty() {
+                    c.invs[i].pre_edits.clear();
+                    true
+                } else {
+                    false
+                }
+            }));
+        }
+    }
     // arguments
     for i in 0..base.invs.len() {
         if base.invs[i].opts.files.len() > 1 {
